@@ -33,7 +33,7 @@ NoPending == [n |-> "", k |-> ""]
 Rec0 == [ev |-> "init", n |-> "", t |-> "", k |-> "", v |-> 0, size |-> 0, mem |-> FALSE, ret |-> None,
          d |-> 0, panic |-> FALSE, exec |-> FALSE, inv |-> -1, invn |-> 0, invkey |-> "", invval |-> -1,
          cret |-> -1, cok |-> TRUE, ok |-> TRUE, cif |-> -1, cifn |-> 0, cifkey |-> "", cifval |-> -1,
-         cifok |-> TRUE, x |-> "", count |-> 0, found |-> FALSE, sel |-> <<>>, hits |-> 0, misses |-> 0]
+         cifok |-> TRUE, task |-> "", x |-> "", count |-> 0, found |-> FALSE, sel |-> <<>>, hits |-> 0, misses |-> 0]
 
 \* Layouts is defined by the model-checking module: a set of [cfgs, metas] records
 InitWith(Layouts) ==
@@ -84,7 +84,7 @@ CallGet(n, k, verdict) ==
         /\ UNCHANGED <<ver, susp>>
 
 \* the rest of an executed call for (n, k): body result, cache_if consultation, conditional store
-FinOf(n, k, ok, cifv, size) ==
+FinOf(n, k, ok, cifv, size, task) ==
   /\ ver < MaxVer
   /\ LET cfg == cfgs[n]
          meta == metas[n]
@@ -96,7 +96,7 @@ FinOf(n, k, ok, cifv, size) ==
                             !.cifkey = IF meta.hasCif THEN k ELSE "",
                             !.cifval = IF meta.hasCif THEN v ELSE -1,
                             !.cifok = IF meta.hasCif THEN ok ELSE TRUE,
-                            !.cret = v, !.cok = ok]
+                            !.cret = v, !.cok = ok, !.task = task]
      IN /\ (~meta.isResult => ok)
         /\ (~meta.hasCif => cifv = 1)
         /\ (~mem => size = 1)
@@ -107,7 +107,7 @@ FinOf(n, k, ok, cifv, size) ==
 
 CallFin(ok, cifv, size) ==
   /\ ~Idle
-  /\ FinOf(pending.n, pending.k, ok, cifv, size)
+  /\ FinOf(pending.n, pending.k, ok, cifv, size, "")
   /\ pending' = NoPending
   /\ UNCHANGED susp
 
@@ -142,7 +142,7 @@ StartSusp(n, k, verdict) ==
 ResumeSusp(task, ok, cifv, size) ==
   /\ Idle
   /\ task \in susp
-  /\ FinOf(task.n, task.k, ok, cifv, size)
+  /\ FinOf(task.n, task.k, ok, cifv, size, "resumed")
   /\ susp' = susp \ {task}
   /\ UNCHANGED pending
 
